@@ -94,3 +94,13 @@ theorem C04_cfloat_roundtrip_cfg_6_2 :
       (cfVal c b.val).isNan = true ∨ (cfVal c b.val).isZero = true ∨
       fromIeee c 11 52 UVerif.Generated.ieeeF64_qnanmask UVerif.Generated.ieeeF64_snanmask (ieeeEncode 11 52 (toNative c b.val)) = b.val := by
   decide +kernel
+
+/-- `to_int()` after the repair "to_int() must not round the value to float before truncating": the read-back the cast
+    truncates is computed in double, where the former witness cfloat<40,8> 0x3fffffffff (1.99999999953…, 31 fraction
+    bits) is exact — through float it was rounded to 2.0 and `int` returned 2 instead of 1 -/
+theorem C04_cfloat_to_int_cfg_40_8 :
+    let c : Cfg := { nbits := 40, es := 8, bt := 32, sub := true }
+    toNativeIn c 11 52 0x3fffffffff = cfVal c 0x3fffffffff ∧
+    truncZ (valToRat (toNativeIn c 11 52 0x3fffffffff)) = 1 ∧
+    truncZ (valToRat (toNativeIn c 8 23 0x3fffffffff)) = 2 := by
+  decide +kernel
